@@ -51,7 +51,10 @@ def main():
             r = sh('python3-vt -m vc.check %s' % c, cwd=VERIF, env=dict(os.environ, VERIF_REPO=REPO, VERIF_EVIDENCE_DIR=os.path.join(VERIF, '.build', 'seed-evidence')))
             out['checks'][c] = {'exit': r.returncode, 'lines': [l for l in r.stdout.splitlines() if l.startswith(('VIOLATION', 'RESULT', 'UNDECIDED', 'CHECKER', 'KNOWN'))][:6]}
     finally:
-        sh('git -C %s checkout -- .' % REPO)
+        if sh('git -C %s apply -R %s' % (REPO, os.path.join(d, 'patch.diff'))).returncode != 0:
+            sh('git -C %s checkout -- .' % REPO)
+            if REPO != '/repo':
+                sh('git -C %s clean -fdq' % REPO)
     print(json.dumps(out, indent=1))
     meta['last_run'] = out
     json.dump(meta, open(os.path.join(d, 'meta.json'), 'w'), indent=1)
